@@ -118,7 +118,13 @@ impl<'a> Walk<'a> {
 
     pub fn module(&mut self, stmt: &AstStmt) {
         // The root may extend over trailing newlines; no parent.
-        self.stmt(stmt, None);
+        if self.normalize {
+            self.out.push_str("(block");
+            self.flat(stmt, None);
+            self.out.push(')');
+        } else {
+            self.stmt(stmt, None);
+        }
     }
 
     fn block(&mut self, s: &AstStmt, parent: Option<Span>) {
@@ -197,7 +203,7 @@ impl<'a> Walk<'a> {
             }
             StmtP::AssignModify(t, op, e) => {
                 self.open("augassign", sp, parent);
-                self.atom(&format!("{op}"));
+                self.atom(format!("{op}").trim());
                 self.out.push(' ');
                 self.target(t, me);
                 self.out.push(' ');
@@ -426,7 +432,13 @@ impl<'a> Walk<'a> {
                 self.open("call", sp, parent);
                 self.out.push(' ');
                 self.expr(f, me);
-                for a in &args.args {
+                // Canonical argument order for tree comparison: positional and *args in source order, then
+                // named and **kwargs in source order (CPython's ast stores keywords separately).
+                let mut ordered: Vec<&AstArgument> = args.args.iter().collect();
+                if self.normalize {
+                    ordered.sort_by_key(|a| matches!(a.node, ArgumentP::Named(..) | ArgumentP::KwArgs(..)));
+                }
+                for a in ordered {
                     let asp = a.span;
                     let ame = Some(asp);
                     match &a.node {
